@@ -40,22 +40,20 @@ var dateTimeParser = date.NewParser([]string{
 	"DD MMMM YYYY",
 
 	// mm/dd/yy
+	// the 12-hour forms first: an unanchored 24-hour form would claim their texts and lose AM/PM
+	"D/M/YYYY hh:mm:ss P",
+	"D/M/YYYY hh:mm P",
+	"D/M/YYYY h:mm P",
 	"DD/MM/YYYY HH:mm:ss.SSS",
 	"DD/MM/YYYY HH:mm:ss",
 	"D/MM/YYYY HH:mm:ss",
 	"DD/M/YYYY HH:mm:ss",
 	"D/M/YYYY HH:mm:ss",
-	"D/M/YYYY hh:mm:ss P",
 	"DD/MM/YYYY HH:mm",
 	"D/M/YYYY HH:mm",
-	"D/M/YY HH:mm",
-	"D/M/YYYY hh:mm P",
-	"D/M/YYYY h:mm P",
 	"DD/MMM/YYYY:HH:mm:ss ZZZZ",
 	"DD/MM/YYYY",
 	"D/MM/YYYY",
-	"DD/MM/YY",
-	"D/M/YY",
 
 	// yyyy/mm/dd
 	"YYYY/MM/DD HH:mm:ss.SSS",
@@ -66,6 +64,11 @@ var dateTimeParser = date.NewParser([]string{
 	"YYYY/M/D HH:mm",
 	"YYYY/MM/DD",
 	"YYYY/M/DD",
+
+	// d/m/yy: after yyyy/mm/dd, whose texts contain a d/m/yy look-alike ("2019/05/25" has "19/05/25")
+	"D/M/YY HH:mm",
+	"DD/MM/YY",
+	"D/M/YY",
 
 	// yyyy-mm-ddThh
 	"YYYY-MM-DDTHH:mm:ss.SSSZZZZ",
